@@ -196,6 +196,15 @@ func ruleMergeConfigs(c *Ctx, r *Repo, cp *packages.Package) {
 		return
 	}
 	d := newDT(info)
+	// the per-field work and its tests may sit in private helpers (mergeField, isUnset, ..): followed;
+	// mergeStringMaps has its own rule
+	d.callInline = map[*types.Func]*ast.FuncDecl{}
+	for fn, g := range pkgUnexported(cp) {
+		if g != fd && fn.Name() != "mergeStringMaps" {
+			d.callInline[fn] = g
+		}
+	}
+	d.hoistCalls = true
 	start := d.envBefore(seedEnv(d, fd), fd.Body.List, loop)
 	start.env[iv] = "I"
 	d.paths = nil
@@ -224,6 +233,14 @@ func ruleMergeConfigs(c *Ctx, r *Repo, cp *packages.Package) {
 			for _, call := range p.CallsTo("config.mergeStringMaps") {
 				if len(call.Args) == 2 && strings.HasPrefix(call.Args[0], "SRC.") && strings.HasPrefix(call.Args[1], "DEST.") {
 					return true
+				}
+				// or into the fresh map that this path has just installed in the destination field
+				if len(call.Args) == 2 && strings.HasPrefix(call.Args[0], "SRC.") {
+					for _, c2 := range p.Calls {
+						if c2.Name == "(reflect.Value).Set" && c2.Recv == "DEST" && len(c2.Args) == 1 && c2.Args[0] == "reflect.ValueOf("+call.Args[1]+")" && c2.Step < call.Step && strings.HasPrefix(call.Args[1], "builtin.make(map[string]any") {
+							return true
+						}
+					}
 				}
 			}
 			return false
@@ -744,10 +761,12 @@ func ruleConsumers(c *Ctx, r *Repo, rule string, only map[string]bool) {
 		c.Fail(rule, "Run|missing", "internal/cmd/mockery.go", "RootApp.Run not found")
 		return
 	}
+	// the generator may be built in a private helper of Run: the call is read in Run's terms
 	var call *ast.CallExpr
-	ast.Inspect(run.Body, func(n ast.Node) bool {
+	fc := newFuncCanon(info, run)
+	inspectWithHelpers(cmdp, run, fc, 2, func(gc *fcanon, _ *ast.FuncDecl, n ast.Node) bool {
 		if ce, ok := n.(*ast.CallExpr); ok && calleeName(info, ce) == modPath+"/internal.NewTemplateGenerator" {
-			call = ce
+			call, fc = ce, gc
 		}
 		return true
 	})
@@ -757,7 +776,6 @@ func ruleConsumers(c *Ctx, r *Repo, rule string, only map[string]bool) {
 	}
 	fn := calleeFunc(info, call)
 	sig := fn.Type().(*types.Signature)
-	fc := newFuncCanon(info, run)
 	level := func(e ast.Expr) string {
 		s := fc.E(e)
 		switch {
@@ -975,9 +993,8 @@ func rulePkgConfigArg(c *Ctx, r *Repo, rule string) {
 	if run == nil {
 		return
 	}
-	fc := newFuncCanon(info, run)
 	found := false
-	ast.Inspect(run.Body, func(n ast.Node) bool {
+	inspectWithHelpers(cmdp, run, newFuncCanon(info, run), 2, func(fc *fcanon, _ *ast.FuncDecl, n ast.Node) bool {
 		call, ok := n.(*ast.CallExpr)
 		if !ok || calleeName(info, call) != modPath+"/internal.NewTemplateGenerator" {
 			return true
